@@ -211,4 +211,49 @@ theorem orth_orthonormal_succ (ip : Vec K → Vec K → K) (sqrt : K → K) (n :
       · rw [if_neg haj, if_pos hbj, hip.symm _ _ (hv.1 a (by omega)) hsz, h0 a (by omega), if_neg (by omega)]
       · rw [if_neg haj, if_neg hbj]; exact hv.2 a b (by omega) (by omega)
 
+/-! ### the backend's serial inner product satisfies `IpOK` -/
+
+theorem zip_sum_eq_finsum (l1 l2 : List K) (h : l1.length = l2.length) :
+    ((l1.zip l2).map (fun p => p.1 * p.2)).sum = ∑ i ∈ Finset.range l1.length, l1.getD i 0 * l2.getD i 0 := by
+  induction l1 generalizing l2 with
+  | nil => simp
+  | cons a t ih =>
+    cases l2 with
+    | nil => simp at h
+    | cons b t2 =>
+      have h' : t.length = t2.length := by simpa using h
+      simp only [List.zip_cons_cons, List.map_cons, List.sum_cons, List.length_cons]
+      rw [Finset.sum_range_succ', ih t2 h']
+      simp only [List.getD_cons_succ, List.getD_cons_zero]
+      ring
+
+theorem stdIp_eq_finsum (n : Nat) (x y : Vec K) (hx : x.size = n) (hy : y.size = n) :
+    stdIp x y = ∑ i ∈ Finset.range n, x.getD i 0 * y.getD i 0 := by
+  rw [stdIp_eq_sum, zip_sum_eq_finsum x.toList y.toList (by simp [hx, hy])]
+  simp only [Array.length_toList, hx]
+  apply Finset.sum_congr rfl
+  intro i _
+  simp [Array.getD_eq_getD_getElem?, List.getD_eq_getElem?_getD]
+
+/-- non-vacuity of the hypotheses on the inner product: `detail::default_inner_product` (serial) has them -/
+theorem stdIp_ipOK (n : Nat) : IpOK (stdIp : Vec K → Vec K → K) n := by
+  refine ⟨?_, ?_, ?_⟩
+  · intro u w hu hw
+    rw [stdIp_eq_finsum n u w hu hw, stdIp_eq_finsum n w u hw hu]
+    apply Finset.sum_congr rfl
+    intro i _; ring
+  · intro a u w z hu hw hz
+    rw [stdIp_eq_finsum n _ z (by rw [axpby_size, hu]) hz, stdIp_eq_finsum n u z hu hz,
+      stdIp_eq_finsum n w z hw hz, Finset.mul_sum, ← Finset.sum_add_distrib]
+    apply Finset.sum_congr rfl
+    intro i hi
+    rw [axpby_getD _ _ _ _ _ (by rw [hu]; exact Finset.mem_range.mp hi)]
+    ring
+  · intro a u w z hu hz
+    rw [stdIp_eq_finsum n _ z (by rw [axpby_size, hu]) hz, stdIp_eq_finsum n u z hu hz, Finset.mul_sum]
+    apply Finset.sum_congr rfl
+    intro i hi
+    rw [axpby_getD _ _ _ _ _ (by rw [hu]; exact Finset.mem_range.mp hi)]
+    ring
+
 end Amgcl.Solver
